@@ -4,6 +4,7 @@ From VQ Require Import Model.Inventory.
 From VQ.Gen Require Import inv_rsvq.
 Import ListNotations.
 Open Scope string_scope.
-Lemma pin_inv_rsvq : inv_rsvq =
+Definition pinned_inv_rsvq : list (string * kind * bool) :=
   [].
+Lemma pin_inv_rsvq : inv_rsvq = pinned_inv_rsvq.
 Proof. reflexivity. Qed.
